@@ -144,6 +144,25 @@ RemoveAt(s, p, i, isPop) ==       \* i 1-based
        seen == Count(s.coll[p], c) - (IF isPop THEN 1 ELSE 0)
        s2 == IF seen <= 1 /\ s1.parent[c] = p THEN [s1 EXCEPT !.parent[c] = None, !.mod = @ \cup {c}] ELSE s1
    IN [s2 EXCEPT !.coll[p] = DeleteAt(@, i)]
+\* list.__setitem__(i, c): remove event for the member in the slot (fired while it is still in the list: has_dupes sees every occurrence),
+\* then the append event for c (cascade, backref: c.parent := p, unlink from another parent), then the slot is overwritten.  Assigning
+\* the member that already sits in the slot therefore clears and restores its parent; `noteDup` feeds the dupseen ghost
+SetItemAt(s, p, i, c, noteDup) ==      \* i 1-based
+   LET e == s.coll[p][i]
+       s1 == [EvRemove(s, p, e) EXCEPT !.mod = @ \cup {p}]
+       s2 == IF Count(s.coll[p], e) <= 1 /\ s1.parent[e] = p THEN [s1 EXCEPT !.parent[e] = None, !.mod = @ \cup {e}] ELSE s1
+       s3 == CascAppend(s2, p, c)
+       old == s3.parent[c]
+       s4 == IF old = p THEN s3 ELSE [(IF old # None THEN UnlinkFromOld(s3, c, old) ELSE s3) EXCEPT !.parent[c] = p]
+       q == [s4.coll[p] EXCEPT ![i] = c]
+   IN [s4 EXCEPT !.mod = @ \cup {p, c}, !.hp[c] = p, !.coll[p] = q,
+                 !.dupseen = @ \/ (noteDup /\ Len(q) # Cardinality(Range(q)))]
+\* p.children[::-1] = list(p.children): an extended-slice assignment is one __setitem__ per index, last index first, values in the
+\* original order (the list holds duplicates in between; a middle element of an odd-length list is assigned onto itself)
+RECURSIVE ReverseFrom(_, _, _, _)
+ReverseFrom(s, p, orig, k) ==      \* k = 1..Len(orig): slot Len-k+1 receives orig[k]
+   IF k > Len(orig) THEN s ELSE ReverseFrom(SetItemAt(s, p, Len(orig) - k + 1, orig[k], FALSE), p, orig, k + 1)
+DoReverse(s, p) == R(ReverseFrom(s, p, s.coll[p], 1), "ok")
 FirstIdx(q, x) == CHOOSE i \in 1..Len(q) : q[i] = x /\ \A j \in 1..(i-1) : q[j] # x
 DoSetParent(s, c, np) ==
    LET old == s.parent[c]
@@ -266,6 +285,11 @@ AppendA == Enabled("Append") /\ \E p \in Ps, c \in Cs : CanAdd(p, c)
                                  /\ Step("Append", <<p, c>>, R(AppendAt(st, p, c, Len(st.coll[p])), "ok"), {})
 InsertA == Enabled("Insert") /\ \E p \in Ps, c \in Cs : CanAdd(p, c) /\ Len(st.coll[p]) > 0
                                  /\ Step("Insert", <<p, 0, c>>, R(AppendAt(st, p, c, 0), "ok"), {})
+SetItemA == Enabled("SetItem") /\ \E p \in Ps : \E i \in 1..Len(st.coll[p]) : \E c \in Cs :
+                                 (c = st.coll[p][i] \/ c \notin Range(st.coll[p]) \/ (AllowDup /\ Count(st.coll[p], c) < 2))
+                                 /\ Step("SetItem", <<p, i - 1, c>>, R(SetItemAt(st, p, i, c, TRUE), "ok"), {})
+ReverseA == Enabled("Reverse") /\ \E p \in Ps : Len(st.coll[p]) >= 2 /\ Cardinality(Range(st.coll[p])) = Len(st.coll[p])
+                                 /\ Step("Reverse", <<p>>, DoReverse(st, p), {})
 RemoveA == Enabled("Remove") /\ \E p \in Ps, c \in Cs : c \in Range(st.coll[p])
                                  /\ Step("Remove", <<p, c>>, R(RemoveAt(st, p, FirstIdx(st.coll[p], c), FALSE), "ok"), {})
 PopA == Enabled("Pop") /\ \E p \in Ps : Len(st.coll[p]) > 0 /\ \E i \in {0, Len(st.coll[p]) - 1} :
@@ -279,7 +303,7 @@ CommitReloadA == Enabled("CommitReload") /\ \E f \in {CommitLoop(st)} :
 InitStates == (IF InitMode \in {"empty", "both"} THEN {NewSt} ELSE {})
               \cup (IF InitMode \in {"loaded", "both"} THEN {Reload(Ps, LoadedDbc, LoadedDbv)} ELSE {})
 Init == st \in InitStates /\ last = [a |-> "init", arg |-> <<>>, ret |-> "ok", dml |-> {}]
-Next == SetValA \/ Add \/ Delete \/ Expunge \/ AppendA \/ InsertA \/ RemoveA \/ PopA \/ ReplaceA \/ SetParentA \/ FlushA \/ CommitReloadA
+Next == SetItemA \/ ReverseA \/ SetValA \/ Add \/ Delete \/ Expunge \/ AppendA \/ InsertA \/ RemoveA \/ PopA \/ ReplaceA \/ SetParentA \/ FlushA \/ CommitReloadA
 Spec == Init /\ [][Next]_vars
 View == st
 Obs(s) == [hist |-> Hist(s), pidhist |-> PidHist(s), valhist |-> ValHist(s), insess |-> {o \in Objs : InSess(s, o)}]
@@ -339,7 +363,7 @@ AddReachesClosure == [][(last'.a = "Add" /\ last'.ret = "ok" /\ ~st'.dead) => \A
 \* a direct append / insert to an in-session parent pulls a non-member child in (cascade on the operated attribute only) ...
 PulledIn(c) == last'.a \in {"Append", "Insert"} /\ "save-update" \in Casc /\ InSess(st, last'.arg[1]) /\ c = last'.arg[Len(last'.arg)]
 \* ... and re-association never throws a session member out of the session
-Reassoc(c) == last'.a \in {"Append", "Insert", "SetParent", "Replace"} /\ ~st'.dead /\ st'.parent[c] # None
+Reassoc(c) == last'.a \in {"Append", "Insert", "SetParent", "Replace", "SetItem", "Reverse"} /\ ~st'.dead /\ st'.parent[c] # None
 \* carve-out = the confirmed defect (DESIGN 6, C39): under delete-orphan a child without a row that is moved away from an old parent is
 \* expunged by the backref's removal from that parent although it is being re-associated
 OrphanMove(c) == DOrph /\ ~HasKey(st, c) /\ st.parent[c] \notin {None, st'.parent[c]}
